@@ -36,7 +36,7 @@ EXPLANATION = (
     "create_event_node -> PUMLEventNode.node_type -> ':{node_type};'. R5.6 "
     "break / detach are emitted only as the last line of the node that owns "
     "them."
-    " Added: R5.7 copies of a diagram node carry every constructor field; R5.8 separators are indexed by branch position; R5.9 every opened block gets its end node connected; R5.10 the per-path lists of a logic block rotate in lock-step; R5.11 the output file is opened only after the text exists.")
+    " Added: R5.7 copies of a diagram node carry every constructor field; R5.8 separators are indexed by branch position; R5.9 every opened block gets its end node connected; R5.10 the per-path lists of a logic block rotate in lock-step; R5.11 the output file is opened only after the text exists; R5.12 every diagram node gets a fresh identity, the parent reference of the node it stands for and is registered on every path; R5.13 every created event node is connected from its predecessor; R5.14 (anchor: loop end dummy inherits the merge evidence of the loop's exits) the dummy start / end of a loop body mirror the boundary evidence of the parent graph - see R7.12.")
 TRUSTED = ["the repository's hand-written corpus is the oracle for the "
            "dialect plus2json consumes"]
 NOT_DECIDED = ["block closure and nesting as a function of graph shape",
@@ -57,6 +57,7 @@ def check(rep: Report, ctx: Ctx) -> None:
     r511(rep, ctx)
     r512(rep, ctx)
     r513(rep, ctx)
+    r514(rep, ctx)
 
 
 # --------------------------------------------------------------------------
@@ -1095,3 +1096,14 @@ def r513(rep: Report, ctx: Ctx) -> None:
     rep.ob("R5.13", "add_puml_edge(previous node, created node) on every "
            "path", ok, fi=fi, node=edges[0] if edges else fi.node,
            detail=unparse(edges[0])[:80] if edges else "<missing>")
+
+
+# --------------------------------------------------------------------------
+def r514(rep: Report, ctx: Ctx) -> None:
+    """Anchor "loop end dummy inherits the merge evidence of the loop's
+    exits": see ``c07.loop_boundary_evidence``."""
+    from .c07 import loop_boundary_evidence
+    rep.rule("R5.14", "the dummy start / end of a loop body carry the "
+             "evidence of the loop's boundary (a fork that ends the body is "
+             "closed, every entry branch is drawn)", 12)
+    loop_boundary_evidence(rep, ctx, "R5.14")
